@@ -158,6 +158,169 @@ def work(item):
     return res
 
 
+# ----------------------------------------------------------------------------- binary64: discrete decisions of the fast path
+def work_fp_integrals(item):
+    """BSplines.__init__ (clamped uniform-cubic space; its _build_integrals evaluates auxiliary splines at points that are
+    knots in exact arithmetic) with xmin, xmax arbitrary doubles, ncells concrete, break points = numpy.linspace's algorithm.
+      1. reference run in exact reals: the knot spans found by nu_find_span (one path expected);
+      2. the same code on rounded reals (every operation exact*(1+d), |d| <= 2^-53): for every feasible path the spans must be
+         those of the reference run -- decided in QF_NRA for ALL doubles of the stated range;
+      3. only if a deviating path is feasible in (2): the same path on binary64 proxies (QF_FP) to obtain real doubles,
+         replayed on the real float code against the true integrals."""
+    from lib import symfp
+    ncells, canary = item
+    res = H.worker_result()
+    m = numenv.mods()
+    t0 = time.time()
+    if canary:
+        apply_canary(m, canary)
+    numenv.disable()
+    spl, sef = m['spl'], m['sef']
+    spans = []
+    real_find = spl.nu_find_span
+
+    def rec_find(knots, degree, x):
+        r = real_find(knots, degree, x)
+        spans.append(int(r))
+        return r
+
+    LO, HI, WLO, WHI = -100.0, 100.0, 2.0 ** -6, 200.0
+
+    def make_body(mode, fixed_xmin=None):
+        def body(ctx):
+            del spans[:]
+            ctx.oneshot = True
+            symfp.SRd.BOUND = 4096           # |xmin| <= 100, 11*dx <= 2200: every knot and test point is below 4096
+            if mode == 'fp':
+                xmin, xmax = symfp.var('xmin'), symfp.var('xmax')
+                F = symfp.lift
+                w = z3.fpSub(symfp.RNE, xmax.t, xmin.t)
+                ctx.assume(z3.And(z3.fpGEQ(xmin.t, F(LO)), z3.fpLEQ(xmin.t, F(HI)), z3.fpGEQ(w, F(WLO)), z3.fpLEQ(w, F(WHI))))
+                if fixed_xmin is not None:
+                    ctx.assume(z3.fpEQ(xmin.t, F(fixed_xmin)))
+                    xmin = symfp.SF(F(fixed_xmin))
+            else:
+                a, b = z3.Real('xmin'), z3.Real('xmax')
+                ctx.assume(z3.And(a >= LO, a <= HI, b - a >= z3.RealVal(1) / 64, b - a <= WHI))
+                cls = symfp.SEx if mode == 'exact' else symfp.SRd
+                xmin, xmax = cls(a), cls(b)
+            shim = symfp.FPNumpy()
+            breaks = shim.linspace(xmin, xmax, ncells + 1)
+            knots = shim.array([breaks[0]] * 3 + list(breaks) + [breaks[-1]] * 3)
+            basis = spl.BSplines(knots, 3, False, True)
+            return xmin, xmax, list(basis.integrals)
+        return body
+
+    saved = (spl.np, spl.nu_find_span, sef.empty)
+    spl.np, spl.nu_find_span, sef.empty = symfp.FPNumpy(), rec_find, symfp.FPNumpy.empty
+    try:
+        ref = None
+        for ctx, (kind, val) in symx.explore(make_body('exact'), timeout_ms=60000, maxpaths=50):
+            if kind == 'abort' and not val.inconclusive:
+                continue
+            if kind != 'ok' or ref is not None:
+                res['obligations'] += 1
+                res['inconclusive'].append('binary64 integrals: reference run in exact reals is not a single path (%s %r, cells %d)' % (kind, val, ncells))
+                ref = False
+                break
+            ref = list(spans)
+        if ref:
+            for ctx, (kind, val) in symx.explore(make_body('rounded'), timeout_ms=120000, maxpaths=200):
+                if kind == 'abort':
+                    if val.inconclusive:
+                        res['obligations'] += 1
+                        res['inconclusive'].append('binary64 integrals: %s (cells %d)' % (val.why, ncells))
+                    continue
+                res['obligations'] += 1
+                if kind == 'ok' and list(spans) == ref:
+                    res['discharged'] += 1
+                    res['nontrivial'].append('fpint|%d|%s' % (ncells, ''.join('T' if d['choice'] else 'F' for d in ctx.decisions)))
+                    continue
+                # a path whose knot spans differ from the exact run (or an exception) is feasible for rounded reals: witness in binary64
+                got_spans = list(spans)
+                dec = [dict(d) for d in ctx.decisions]
+                # witness search in binary64: the left end fixed to a candidate (the rounded-real model's value first), the
+                # right end a free double -- one symbolic double keeps the bit-blasted query small
+                am = ctx.model() if ctx.check() == 'sat' else None
+                cands = []
+                if am is not None:
+                    try:
+                        cands.append(float(Fr(str(am.eval(z3.Real('xmin'), model_completion=True).as_fraction()))))
+                    except Exception:
+                        pass
+                cands += [0.0, -2.5, 0.1, -1.0, 2.0]
+                # (a) cheap: doubles around the rounded-real model and a fixed pseudo-random set, run through the real float code
+                #     (a witness is a witness however it is found; the verdict 'not provable' came from the solver)
+                rng = np.random.RandomState(12345)
+                found = None
+                for k in range(400):
+                    a = cands[k % len(cands)]
+                    b = a + float(rng.uniform(WLO, 20.0))
+                    prob = replay_fp_integrals(m, saved, a, b, ncells)
+                    if prob:
+                        found = (a, b, prob)
+                        break
+                if found:
+                    a, b, prob = found
+                    rep = dict(kind='fp_integrals', xmin=repr(a), xmax=repr(b), ncells=ncells, spans=got_spans, reference_spans=ref, concrete=prob, canary=bool(canary), witness='probe')
+                    res['violations'].append(('integrals:binary64', '%s (knot spans %s instead of %s possible under rounding)' % (prob, got_spans, ref), rep))
+                    continue
+                # (b) the same path on binary64 proxies
+                r, fctx = 'unknown', None
+                for cx in cands:
+                    fctx, (fk, fv) = symx.run_path(make_body('fp', cx), dec, timeout_ms=90000)
+                    r = fctx.check() if fk in ('ok', 'exc') else 'unknown'
+                    if r == 'sat':
+                        break
+                if r == 'sat':
+                    mdl = fctx.model()
+                    a = symfp.model_float(mdl, z3.FP('xmin', symfp.F64))
+                    b = symfp.model_float(mdl, z3.FP('xmax', symfp.F64))
+                    prob = replay_fp_integrals(m, saved, a, b, ncells)
+                    rep = dict(kind='fp_integrals', xmin=repr(a), xmax=repr(b), ncells=ncells, spans=got_spans, reference_spans=ref, concrete=prob, canary=bool(canary))
+                    if prob:
+                        res['violations'].append(('integrals:binary64', '%s (knot spans %s instead of %s)' % (prob, got_spans, ref), rep))
+                    else:
+                        res['inconclusive'].append('binary64 integrals: deviating spans %s for xmin=%r xmax=%r cells=%d, but the stored integrals are right there' % (got_spans, a, b, ncells))
+                else:
+                    res['inconclusive'].append('binary64 integrals: path with spans %s (reference %s) feasible for rounded reals, binary64 query: %s (cells %d)' % (got_spans, ref, r, ncells))
+    finally:
+        spl.np, spl.nu_find_span, sef.empty = saved
+    if canary:
+        undo_canary(m)
+    res['stats'] = symx.GLOBAL.as_dict()
+    symx.GLOBAL.__init__()
+    res['wall'] = round(time.time() - t0, 2)
+    res['canary'] = canary[0] if canary else None
+    return res
+
+
+def replay_fp_integrals(m, saved, a, b, ncells):
+    """the real float constructor on numpy.linspace(a, b, ncells+1): stored integrals against the true ones"""
+    spl, sef = m['spl'], m['sef']
+    cur = (spl.np, spl.nu_find_span, sef.empty)
+    spl.np, spl.nu_find_span, sef.empty = saved
+    try:
+        breaks = np.linspace(a, b, ncells + 1)
+        basis = spl.BSplines(spl.make_knots(breaks, 3, False), 3, False, True)
+        got = np.array(basis.integrals, dtype=float)
+        dx = (Fr(b) - Fr(a)) / ncells
+        T = [Fr(a) + (i - 3) * dx for i in range(ncells + 7)]
+        want = np.array([float(x) for x in SO.basis_integrals_fraction(T, 3, Fr(a), Fr(b))])
+        err = float(np.max(np.abs(got - want)))
+        if err > 1e-9 * float(dx):
+            return 'stored integrals of the clamped uniform-cubic space on linspace(%r, %r, %d) differ from the true integrals by %.3g (dx = %.3g): %s vs %s' % (
+                a, b, ncells + 1, err, float(dx), [round(float(x), 6) for x in got[:4]], [round(float(x), 6) for x in want[:4]])
+    except Exception as e:
+        return 'exception %s: %s' % (type(e).__name__, e)
+    finally:
+        spl.np, spl.nu_find_span, sef.empty = cur
+    return None
+
+
+FP_INT_CANARY = ('auxiliary splines evaluated one knot further right', 'spl', [("                test_pt = xmin + 4*dx\n", "                test_pt = xmin + 5*dx\n")])
+
+
 def work_symknots(item):
     """stored basis integrals with *symbolic break points* (real make_knots + BSplines constructor incl. _build_integrals):
     for every admissible position of the symbolic break points the integral of each (periodic) basis function equals the oracle
@@ -294,6 +457,14 @@ def main():
             caught[r['canary']] = bool(r['violations'])
             continue
         run.merge(r)
+    fp_items = [(n, None) for n in ([1, 2, 3, 5, 8] if run.tier == 'quick' else [1, 2, 3, 4, 5, 6, 7, 8, 12, 16, 32])] + [(3, FP_INT_CANARY)]
+    for r in H.pmap(work_fp_integrals, fp_items, run.args.jobs):
+        if r.get('canary'):
+            run.add_stats(r.get('stats', {}))
+            caught[r['canary']] = bool(r['violations'])
+            continue
+        run.merge(r)
+    run.sections['binary64_integrals_cells'] = [it[0] for it in fp_items[:-1]]
     if True:                # cheap enough for both tiers
         sk = []
         for d in (1, 2):
@@ -308,7 +479,7 @@ def main():
         for r in H.pmap(work_symknots, sk, run.args.jobs):
             run.merge(r)
         run.sections['symbolic_break_point_configs'] = len(sk)
-    for cn in CANARIES:
+    for cn in CANARIES + [FP_INT_CANARY]:
         hit = caught.get(cn[0], False)
         run.canaries.append(dict(name=cn[0], detected=hit))
         if not hit:
@@ -317,7 +488,7 @@ def main():
     run.stubs = sorted(set(numenv.STUBS))
     numenv.disable()
     run.bounds = dict(quick='degrees 1-5, 3 knot families, cells d+1/d+3, uniform cubic fast path 1,2,3,5 cells', thorough='degrees 1-6, 5 families, cells {1,2,3,d+1,8}', this_run=run.tier)
-    run.outside = ['rounding', 'LAPACK/SuperLU elimination (contract)', 'symbolic break points for the weights (thorough decides the stored basis integrals for all break points of degree 1-2 spaces with 2-3 cells and one symbolic break point of cubic spaces)']
+    run.outside = ['rounding of the arithmetic (the discrete decisions of the uniform-cubic clamped constructor -- knot spans of its auxiliary evaluation points -- ARE decided for all doubles xmin in [-100,100], width in [2^-6,200], listed cell counts: rounded-real model, every operation exact + e with |e| <= 2^-53*4096)', 'LAPACK/SuperLU elimination (contract)', 'symbolic break points for the weights (thorough decides the stored basis integrals for all break points of degree 1-2 spaces with 2-3 cells and one symbolic break point of cubic spaces)']
     run.assumptions = ['exact reals for doubles', 'solver contracts as in C08']
     run.finish(
         explanation='Real _build_integrals / get_quadrature_coefficients / compute_interpolant on symbolic data: z3 decides that the '
